@@ -1,5 +1,6 @@
 """Helpers shared by the per-property rule modules."""
 import ast
+import re
 import os
 
 from ..index import (AnalysisError, norm, norm_stmt, walk_no_nested, calls_in, parent_map, enclosing_stmt,
@@ -230,6 +231,24 @@ def numeric_truthiness_rule(index, rep, rid, modules, exempt=None):
                     rep.check(False, rid, fi.qualname, "numeric value `%s` tested by truthiness" % t.ast.id, fn_where(fi, t.stmt), "",
                               "%s tests `%s` by truthiness (`%s`) although it uses it as a number: a value of 0 (a zero-length branch or period, offset 0, a zero edge length) is then handled as if nothing had been given" % (fi.qualname, t.ast.id, norm_stmt(t.stmt)[:60]))
             n += len(nn)
+    # an expression (a table cell `d[a][b]`, an attribute) that the same function compares with a number by order
+    # is a number too: its bare truthiness in a test confuses 0 with 'missing'
+    for m in modules:
+        for fi in index.functions_in_module(m):
+            ordered = set()
+            for c in ast.walk(fi.node):
+                if isinstance(c, ast.Compare) and len(c.ops) == 1 and isinstance(c.ops[0], (ast.Lt, ast.LtE, ast.Gt, ast.GtE)):
+                    for a_, b_ in ((c.left, c.comparators[0]), (c.comparators[0], c.left)):
+                        if isinstance(a_, (ast.Subscript, ast.Attribute)) and isinstance(b_, ast.Constant) and isinstance(b_.value, (int, float)) and not isinstance(b_.value, bool):
+                            ordered.add(norm(a_))
+            if not ordered:
+                continue
+            cfg = cfg_of(fi)
+            for t in cfg.nodes:
+                if t.kind == "test" and isinstance(t.ast, (ast.Subscript, ast.Attribute)) and norm(t.ast) in ordered:
+                    n += 1
+                    rep.check(False, rid, fi.qualname, "numeric value `%s` tested by truthiness" % norm(t.ast)[:40], fn_where(fi, t.stmt), "",
+                              "%s tests `%s` by truthiness (`%s`) and compares the same expression with a number: it is a number, and a value of exactly 0 - a zero distance between two distinct tips joined by zero-length branches, a zero count - is handled as if it were missing" % (fi.qualname, norm(t.ast)[:50], norm_stmt(t.stmt)[:70]))
     return n
 
 
@@ -293,6 +312,14 @@ def zero_is_a_value_rule(index, rep, rid, modules, exempt=None):
                     defaults.update({k.arg: v for k, v in zip(a_.kwonlyargs, a_.kw_defaults) if v is not None})
                 numeric = (isinstance(d, ast.Constant) and isinstance(d.value, (int, float)) and not isinstance(d.value, bool)) or (isinstance(x, ast.Name) and x.id in nn) or (isinstance(x, ast.Attribute) and x.attr in NUMERIC_ATTRS)
                 tri = isinstance(x, ast.Name) and x.id in defaults and is_none(defaults[x.id]) and isinstance(d, ast.Attribute) and d.attr.lstrip("_") == x.id.lstrip("_")
+                if isinstance(x, ast.Subscript) and not numeric and not (isinstance(x.value, ast.Name) and x.value.id in ("kwargs", "kwds", "environ")):
+                    rep.check(False, rid, fi.qualname, "`%s` replaces a stored 0" % _canon_names(norm(b), fi), fn_where(fi, b), "",
+                              "%s computes `%s`: the left side is an element read out of a container, and `or` replaces every falsy element - a stored 0 / 0.0 (a zero distance, the zero diagonal of a distance table, a zero count) is written or passed on as the 'missing' value instead" % (fi.qualname, norm(b)[:70]))
+                xl = x.id if isinstance(x, ast.Name) else (x.attr.lstrip("_") if isinstance(x, ast.Attribute) else None)
+                sized = (not numeric and not tri) and xl in _sized_object_names(index)
+                if sized:
+                    rep.check(False, rid, fi.qualname, "`%s` replaces a given empty %s" % (_canon_names(norm(b), fi), xl), fn_where(fi, b), "",
+                              "%s computes `%s`: a %s defines __len__ and no __bool__, so one that is still EMPTY is falsy - the object the caller handed in (an empty namespace meant to be filled and shared across reads, an empty list to collect into) is silently replaced by the alternative, and what is built is attached to another object than the one the caller keeps" % (fi.qualname, norm(b)[:70], _sized_object_names(index)[xl]))
                 if numeric or tri:
                     rep.check(False, rid, fi.qualname, "`%s` replaces a given %s" % (_canon_names(norm(b), fi), "0" if numeric else "False"), fn_where(fi, b), "",
                               "%s computes `%s`: %s" % (fi.qualname, norm(b)[:70],
@@ -372,6 +399,28 @@ def _yields_text(e, fi, depth=0):
 
 def _canon_names(text, fi):
     return text
+
+
+_SIZED_CACHE = {}
+
+
+def _sized_object_names(index):
+    """snake_case names of the library's classes that define __len__ and no __bool__ (an empty instance is falsy),
+    mapped to the class: the names parameters and attributes holding such objects go by."""
+    key = id(index)
+    if key not in _SIZED_CACHE:
+        out = {}
+        for q, k in index.classes.items():
+            ms = set()
+            for c in index.mro(k):
+                ms |= set(c.methods)
+            if "__len__" in ms and "__bool__" not in ms and "__nonzero__" not in ms and not k.name.startswith("_"):
+                out[re.sub(r"(?<!^)(?=[A-Z])", "_", k.name).lower()] = k.name
+        for alias, of in (("char_matrix", "character_matrix"), ("taxon_set", "taxon_namespace"), ("tns", "taxon_namespace")):
+            if of in out:
+                out.setdefault(alias, out[of])
+        _SIZED_CACHE[key] = out
+    return _SIZED_CACHE[key]
 
 
 def arg_wiring_rule(index, rep, rid, modules):
@@ -1097,7 +1146,7 @@ PROP_MODULES = {
     "C11": [_DM + "taxonmodel", _DM + "treecollectionmodel", _DM + "charmatrixmodel", _DM + "datasetmodel"],
     "C12": [_DM + "basemodel", _DM + "taxonmodel", _TMD + "_tree", _TMD + "_node", _TMD + "_edge", _DM + "treecollectionmodel", _DM + "charmatrixmodel"],
     "C13": [_DM + "basemodel", _IO + "ioservice", _IO + "newickreader", _IO + "newickyielder", _IO + "nexusreader", _IO + "nexusyielder", _DM + "treecollectionmodel", _IO + "nexusprocessing", _IO + "tokenizer", _IO + "nexmlreader", _IO + "nexmlyielder"],
-    "C14": ["dendropy.calculate.phylogeneticdistance", "dendropy.calculate.treemeasure"],
+    "C14": ["dendropy.calculate.phylogeneticdistance", "dendropy.calculate.treemeasure", "dendropy.utility.container"],
     "C15": [_TMD + "_tree", _TMD + "_node"],
     "C16": ["dendropy.model.parsimony", _DM + "charstatemodel"],
     "C17": [_TMD + "_tree", "dendropy.calculate.treemeasure"],
@@ -1632,7 +1681,52 @@ def generic_rules(prop, index, rep):
         ng += found_or_empty_rule(index, rep, rid2, mods)
         ng += method_tested_rule(index, rep, rid2, mods)
         ng += alias_restore_rule(index, rep, rid2, mods)
+        ng += leaked_loop_value_rule(index, rep, rid2, mods)
         rep.ob(rid2, "src/dendropy", "%d nested loops and %d None-guards in the property's modules examined" % (nl, ng), True, nontrivial=nl + ng > 0)
+
+
+LEAKED_LOOP_VALUE_OK = {
+    ("dendropy.dataio.nexmlwriter.NexmlWriter._write_tree", "node"): "flows only into _write_edge's `is_root`, a parameter the callee never reads (it decides on edge.tail_node itself)",
+    ("dendropy.calculate.treecompare.AssemblageInducedTreeShapeKernel.__call__", "distances"): "the kernel-trick score table is outside every property's distances (it does report the LAST permutation's vector where the joint minimum was meant - noted in DESIGN 8.11)",
+}
+
+
+def leaked_loop_value_rule(index, rep, rid, modules):
+    """a per-iteration value does not outlive its loop into another loop: a name bound only inside loop A (its target
+    or a local assigned in its body) and read inside a later loop B that is not nested in A holds, for EVERY pass of
+    B, whatever the LAST pass of A left in it - the shape a one-pass loop takes when it is split into 'collect' and
+    'build' passes and the second pass keeps using the first one's variable."""
+    n = 0
+
+    def stores(node):
+        return {x.id for x in ast.walk(node) if isinstance(x, ast.Name) and isinstance(x.ctx, (ast.Store, ast.Del))}
+    for m in modules:
+        for f in index.functions_in_module(m):
+            loops = [l for l in walk_no_nested(f.node) if isinstance(l, (ast.For, ast.While))]
+            if len(loops) < 2:
+                continue
+            allst = [x for x in walk_no_nested(f.node) if isinstance(x, ast.Name) and isinstance(x.ctx, (ast.Store, ast.Del))]
+            for l1 in loops:
+                inner = {id(x) for x in ast.walk(l1)}
+                per_iter = stores(l1) - {x.id for x in allst if id(x) not in inner} - set(f.all_params)
+                if not per_iter:
+                    continue
+                for l2 in loops:
+                    if l2 is l1 or id(l2) in inner or l2.lineno <= l1.lineno or any(x is l1 for x in ast.walk(l2)):
+                        continue
+                    own = stores(l2)
+                    seen = set()
+                    for x in ast.walk(l2):
+                        if isinstance(x, ast.Name) and isinstance(x.ctx, ast.Load) and x.id in per_iter and x.id not in own and x.id not in seen:
+                            seen.add(x.id)
+                            n += 1
+                            why = LEAKED_LOOP_VALUE_OK.get((f.qualname, x.id))
+                            if why:
+                                rep.ob(rid, fn_where(f, x), "%s: `%s` read after its loop - accepted: %s" % (f.name, x.id, why), True, nontrivial=False)
+                                continue
+                            rep.check(False, rid, f.qualname, "`%s` of an earlier loop read in a later loop" % x.id, fn_where(f, x), "",
+                                      "%s binds `%s` only inside the loop at line %d and reads it inside the later loop at line %d: every pass of the second loop sees what the LAST pass of the first left behind - items collected from several blocks / groups are all built against the last one's value (trees of an earlier <trees> block get the taxa of the last <otus> block)" % (f.qualname, x.id, l1.lineno, l2.lineno))
+    return n
 
 
 def resized_while_iterated_rule(index, rep, rid, modules):
